@@ -1,5 +1,363 @@
-import Wbxml.Model.Buf
-import Wbxml.Model.LList
+/-
+  C19 — the byte-buffer and list containers behave as plain sequences.
+
+  Model: `Model/Buf.lean` (the buffer as the C struct sees it: data pointer, len, malloced,
+  is_static; every raw access bounds-obligated) and `Model/LList.lean` (cells in a heap).
+  Reference: `Spec/Seq.lean` (plain `List UInt8` / `List Nat`).  The theorems below quantify over
+  ALL finite operation histories (induction over the operation list in `Lemmas/BufRun.lean`,
+  `Lemmas/BufLList.lean`), all byte contents and all positions.
+
+  Two hypotheses appear and are exactly the ones the property text and DESIGN.md name:
+  * `Contract` — no `delete` whose range starts inside the contents and extends beyond them
+    (outside the documented contract; the model answers `Err.ub` there, see `excluded_delete_is_ub`);
+  * `Sized` — every intermediate length stays below 2^32 (`WB_ULONG` is 32 bits).
+-/
+import Wbxml.Lemmas.BufRun
+import Wbxml.Lemmas.BufLList
+set_option linter.unusedSimpArgs false
 namespace Wbxml.Props.C19
-theorem placeholder : True := trivial
+open Wbxml Wbxml.Model Wbxml.Model.Buf Wbxml.Spec.Seq
+
+/-! ### Objects under test come into existence well formed -/
+
+/-- `wbxml_buffer_create(data, len, block)`: never faults, yields a well-formed dynamic buffer
+    whose contents are the given bytes (nothing for NULL / empty data). -/
+theorem create_ok (src : Option Bytes) (block : Nat) :
+    ∃ b, Buf.create src block = .ok b ∧ DynInv b ∧ sOf b = ⟨src.getD [], false⟩ := by
+  obtain ⟨b, hb, hr⟩ := rep_create src block
+  exact ⟨b, hb, hr.1, by simp [sOf, hr.2, hr.dyn]⟩
+
+/-- `wbxml_buffer_sta_create(data, len)`: a static view of exactly those bytes. -/
+theorem sta_create_ok (d : Bytes) : StaInv (staCreate d) ∧ sOf (staCreate d) = ⟨d, true⟩ := by
+  have := staCreate_inv d
+  exact ⟨this.1, by simp [sOf, staCreate, Buf.abs]⟩
+
+/-! ### Every single operation -/
+
+/-- `op_refines`: for every operation of the header, on every well-formed buffer, inside the
+    contract: no fault (in particular no access outside the allocation, no NULL store, no fuel
+    exhaustion), the result is well formed again, its contents and the operation's answer are those
+    of the plain byte string. -/
+theorem op_refines (b : Buf) (h : Inv b) (op : Op) (hx : ¬ excluded (sOf b) op)
+    (hsz : b.abs.length < 4294967296) :
+    ∃ b' o, b.step op = .ok (b', o) ∧ Inv b' ∧ sOf b' = (Spec.Seq.step codec (sOf b) op).1 ∧
+      absOut o = (Spec.Seq.step codec (sOf b) op).2 ∧ OutOK o :=
+  step_refines h op hx hsz
+
+/-- The one excluded case really is a fault of the code (the unsigned `len - pos - n` wraps):
+    the exclusion is not a convenience of the model. -/
+theorem excluded_delete_is_ub (c j : Bytes) (pos n : Nat) (hp : pos < c.length) (hn : n ≠ 0)
+    (ho : pos + n > c.length) :
+    ∃ w, (canon c j).delete pos n = .error (.ub w) := by
+  refine ⟨"delete: range overruns the contents (outside the contract)", ?_⟩
+  have h1 : ¬ pos ≥ c.length := by omega
+  simp only [Buf.delete, canon, Bool.false_eq_true, if_false, decide_eq_true_eq, Bool.or_eq_true, h1, hn,
+    or_self, ho, if_true]
+
+/-! ### Positions out of range -/
+
+/-- Operations that take a position, with that position out of range for a buffer of length `len`. -/
+def OutOfRange (len : Nat) : Op → Prop
+  | .getChar pos => pos ≥ len
+  | .setChar pos _ => pos ≥ len
+  | .insert _ pos => pos > len
+  | .insertCstr _ pos => pos > len
+  | .delete pos _ => pos ≥ len
+  | .searchChar _ pos => pos ≥ len
+  | .search _ pos => pos > len
+  | .searchCstr _ pos => pos > len
+  | _ => False
+
+/-- What such a call answers. -/
+def failure : Op → Out
+  | .getChar _ => .optByte none
+  | .searchChar _ _ => .optNat none
+  | .search _ _ => .optNat none
+  | .searchCstr _ _ => .optNat none
+  | _ => .bool false
+
+/-- `oob_fails_without_effect`: with an out-of-range position every operation fails and the buffer
+    is left *identical* (same storage, same length, same capacity). -/
+theorem oob_fails_without_effect (b : Buf) (h : Inv b) (op : Op) (ho : OutOfRange b.len op) :
+    ∃ o, b.step op = .ok (b, o) ∧ absOut o = failure op := by
+  have hv := h.view
+  have hlen : b.len = b.abs.length := hv.2
+  cases op with
+  | getChar pos =>
+    have : b.abs[pos]? = none := List.getElem?_eq_none (by rw [← hlen]; exact ho)
+    exact ⟨.optByte none, by simp [Buf.step, getChar_view hv, this], rfl⟩
+  | setChar pos ch => exact ⟨.bool false, by simp [Buf.step, liftB, setChar_oob pos ch ho], rfl⟩
+  | insert a pos =>
+    refine ⟨.bool false, ?_, rfl⟩
+    rcases ofArg_spec a with ⟨_, hoa⟩ | ⟨s, bs, _, hoa, hvs, _⟩
+    · simp [Buf.step, hoa, Buf.insert, liftB]
+    · by_cases hs : b.isStatic = true
+      · simp [Buf.step, hoa, liftB, insert_static hs]
+      · have hs' : b.isStatic = false := by simpa using hs
+        simp [Buf.step, hoa, liftB, Buf.insert, hs', contents_view hvs, insertData_refused pos bs (Or.inr ho)]
+  | insertCstr s pos =>
+    refine ⟨.bool false, ?_, rfl⟩
+    cases s with
+    | none => simp [Buf.step, Buf.insertCstr, liftB]
+    | some s =>
+      by_cases hs : b.isStatic = true
+      · simp [Buf.step, liftB, insertCstr_static hs]
+      · have hs' : b.isStatic = false := by simpa using hs
+        simp [Buf.step, liftB, Buf.insertCstr, hs', insertData_refused pos (cstrOf s) (Or.inr ho)]
+  | delete pos n => exact ⟨.bool false, by simp [Buf.step, liftB, delete_refused pos n (Or.inl ho)], rfl⟩
+  | searchChar ch pos =>
+    refine ⟨.optNat none, ?_, rfl⟩
+    have ho' : b.len ≤ pos := ho
+    simp [Buf.step, Buf.searchChar, ho']
+  | search a pos =>
+    obtain ⟨o, hoa, hc⟩ := search_spec hv a pos
+    have hgt : pos > b.abs.length := by rw [← hlen]; exact ho
+    have : searchArg b.abs a.bytes pos = none := by
+      unfold searchArg; cases a.bytes <;> simp [Spec.Seq.search, hgt]
+    exact ⟨.optNat none, by simp [Buf.step, hoa, hc, this], rfl⟩
+  | searchCstr s pos =>
+    have hgt : pos > b.abs.length := by rw [← hlen]; exact ho
+    have : searchArg b.abs (s.map cstr) pos = none := by
+      unfold searchArg; cases s <;> simp [Spec.Seq.search, hgt]
+    exact ⟨.optNat none, by simp [Buf.step, searchCstr_spec hv s pos, this], rfl⟩
+  | len => exact absurd ho (by simp [OutOfRange])
+  | getCstr => exact absurd ho (by simp [OutOfRange])
+  | duplicate => exact absurd ho (by simp [OutOfRange])
+  | append _ => exact absurd ho (by simp [OutOfRange])
+  | appendData _ => exact absurd ho (by simp [OutOfRange])
+  | appendCstr _ => exact absurd ho (by simp [OutOfRange])
+  | appendChar _ => exact absurd ho (by simp [OutOfRange])
+  | appendMb _ => exact absurd ho (by simp [OutOfRange])
+  | shrink => exact absurd ho (by simp [OutOfRange])
+  | strip => exact absurd ho (by simp [OutOfRange])
+  | noSpaces => exact absurd ho (by simp [OutOfRange])
+  | rtz => exact absurd ho (by simp [OutOfRange])
+  | compare _ => exact absurd ho (by simp [OutOfRange])
+  | compareCstr _ => exact absurd ho (by simp [OutOfRange])
+  | splitWords => exact absurd ho (by simp [OutOfRange])
+  | onlyWs => exact absurd ho (by simp [OutOfRange])
+  | hexToBin => exact absurd ho (by simp [OutOfRange])
+  | binToHex _ => exact absurd ho (by simp [OutOfRange])
+  | decB64 => exact absurd ho (by simp [OutOfRange])
+  | encB64 => exact absurd ho (by simp [OutOfRange])
+
+/-! ### Static buffers -/
+
+/-- The operations that change a buffer. -/
+def Mutating : Op → Bool
+  | .setChar _ _ | .insert _ _ | .insertCstr _ _ | .append _ | .appendData _ | .appendCstr _
+  | .appendChar _ | .appendMb _ | .delete _ _ | .shrink | .strip | .noSpaces | .rtz
+  | .hexToBin | .binToHex _ | .decB64 | .encB64 => true
+  | _ => false
+
+/-- `static_refuses_mutation`: a static buffer answers every mutation with a refusal and stays
+    identical — whatever its contents and whatever the arguments (no invariant is even needed:
+    the refusal comes before anything is looked at). -/
+theorem static_refuses_mutation (b : Buf) (hs : b.isStatic = true) (op : Op) (hm : Mutating op = true) :
+    b.step op = .ok (b, if op = .noSpaces then .unit else .bool false) := by
+  by_cases hn : op = .noSpaces
+  · subst hn; simp [Buf.step, noSpaces_static hs]
+  · simp only [hn, if_false]
+    cases hmu : mutate codec [] op with
+    | some r => exact step_static_mutate hs [] op r hmu
+    | none => cases op <;> simp_all [Mutating, mutate]
+
+/-- …and every other operation leaves any buffer identical (queries have no effect). -/
+theorem queries_have_no_effect (b : Buf) (h : Inv b) (op : Op) (hm : Mutating op = false) :
+    ∃ o, b.step op = .ok (b, o) ∧ absOut o = query b.abs op := by
+  have hq : mutate codec b.abs op = none := by cases op <;> simp_all [Mutating, mutate]
+  have hn : op ≠ .noSpaces := by intro e; subst e; simp [Mutating] at hm
+  obtain ⟨o, ho, ha, _⟩ := step_query h.view op hq hn
+  exact ⟨o, ho, ha⟩
+
+/-! ### All finite histories -/
+
+theorem spec_run_static (s : State) (ops : List Op) :
+    (Spec.Seq.run codec s ops).1.isStatic = s.isStatic := by
+  induction ops generalizing s with
+  | nil => rfl
+  | cons op ops ih =>
+    simp only [Spec.Seq.run]
+    rw [ih]
+    unfold Spec.Seq.step
+    split
+    · split <;> rfl
+    · split
+      · split <;> rfl
+      · rfl
+
+/-- `history_refines` — the main theorem.  After ANY finite sequence of operations inside the
+    contract on a well-formed buffer: the model has not faulted, the buffer is well formed, its
+    length and contents are those of the plain byte string subjected to the same operations, and
+    every answer along the way was the plain string's answer. -/
+theorem history_refines (b : Buf) (h : Inv b) (ops : List Op)
+    (hc : Contract codec (sOf b) ops) (hs : Sized (sOf b) ops) :
+    ∃ b' outs, b.run ops = .ok (b', outs) ∧ Inv b' ∧
+      b'.abs = (Spec.Seq.run codec (sOf b) ops).1.bytes ∧ b'.len = b'.abs.length ∧
+      b'.isStatic = b.isStatic ∧
+      outs.map absOut = (Spec.Seq.run codec (sOf b) ops).2 ∧ ∀ o ∈ outs, OutOK o := by
+  obtain ⟨b', outs, hr, hi, hs', ho, hok⟩ := run_refines ops b h hc hs
+  refine ⟨b', outs, hr, hi, ?_, hi.view.2, ?_, ho, hok⟩
+  · rw [← hs']; rfl
+  · have := spec_run_static (sOf b) ops
+    rw [← hs'] at this; exact this
+
+/-- From creation: any history on a freshly created dynamic buffer. -/
+theorem dynamic_history (src : Option Bytes) (block : Nat) (ops : List Op)
+    (hc : Contract codec ⟨src.getD [], false⟩ ops) (hs : Sized ⟨src.getD [], false⟩ ops) :
+    ∃ b0 b outs, Buf.create src block = .ok b0 ∧ b0.run ops = .ok (b, outs) ∧ DynInv b ∧
+      b.abs = (Spec.Seq.run codec ⟨src.getD [], false⟩ ops).1.bytes ∧ b.len = b.abs.length ∧
+      outs.map absOut = (Spec.Seq.run codec ⟨src.getD [], false⟩ ops).2 := by
+  obtain ⟨b0, hb0, hi0, hs0⟩ := create_ok src block
+  obtain ⟨b, outs, hr, hi, ha, hl, hst, ho, _⟩ := history_refines b0 (Or.inl hi0) ops (by rw [hs0]; exact hc)
+    (by rw [hs0]; exact hs)
+  rw [hs0] at ha ho
+  refine ⟨b0, b, outs, hb0, hr, ?_, ha, hl, ho⟩
+  rcases hi with hd | hsta
+  · exact hd
+  · have : b.isStatic = false := by rw [hst]; exact hi0.1
+    rw [hsta.1] at this; exact absurd this (by simp)
+
+/-- `terminator`: whatever the history, a dynamic buffer's storage holds one NUL right after the
+    contents, inside the allocation (or there is no storage and the length is 0). -/
+theorem terminator (src : Option Bytes) (block : Nat) (ops : List Op)
+    (hc : Contract codec ⟨src.getD [], false⟩ ops) (hs : Sized ⟨src.getD [], false⟩ ops) :
+    ∃ b0 b outs, Buf.create src block = .ok b0 ∧ b0.run ops = .ok (b, outs) ∧
+      ((b.data = none ∧ b.len = 0) ∨
+       (∃ m, b.data = some m ∧ m.length = b.malloced ∧ b.len < b.malloced ∧ m[b.len]? = some 0)) := by
+  obtain ⟨b0, b, outs, h0, hr, hd, _⟩ := dynamic_history src block ops hc hs
+  refine ⟨b0, b, outs, h0, hr, ?_⟩
+  obtain ⟨_, hm⟩ := hd
+  cases hdata : b.data with
+  | none => rw [hdata] at hm; exact Or.inl ⟨rfl, hm.1⟩
+  | some m => rw [hdata] at hm; exact Or.inr ⟨m, rfl, hm⟩
+
+/-- `no_ub`: no history inside the contract makes the code touch memory it does not own. -/
+theorem no_ub (b : Buf) (h : Inv b) (ops : List Op)
+    (hc : Contract codec (sOf b) ops) (hs : Sized (sOf b) ops) :
+    ∀ e, b.run ops ≠ .error e := by
+  obtain ⟨b', outs, hr, _⟩ := history_refines b h ops hc hs
+  intro e he; rw [hr] at he; cases he
+
+/-- Any history on a static buffer leaves its bytes unchanged. -/
+theorem static_history (d : Bytes) (ops : List Op) (hs : Sized ⟨d, true⟩ ops) :
+    ∃ b outs, (staCreate d).run ops = .ok (b, outs) ∧ b.abs = d ∧ b.isStatic = true := by
+  have hsta := sta_create_ok d
+  have hc : ∀ (ops : List Op) (s : State), s.isStatic = true → Contract codec s ops := by
+    intro ops
+    induction ops with
+    | nil => intro s _; trivial
+    | cons op ops ih =>
+      intro s hst
+      refine ⟨?_, ih _ (by rw [← spec_run_static s [op]] at hst; simpa [Spec.Seq.run] using hst)⟩
+      cases op <;> simp [excluded, hst]
+  have hbytes : ∀ (ops : List Op) (s : State), s.isStatic = true → (Spec.Seq.run codec s ops).1.bytes = s.bytes := by
+    intro ops
+    induction ops with
+    | nil => intro s _; rfl
+    | cons op ops ih =>
+      intro s hst
+      have h1 : (Spec.Seq.step codec s op).1 = s := by
+        unfold Spec.Seq.step
+        split
+        · simp [hst]
+        · split
+          · simp [hst]
+          · rfl
+      simp only [Spec.Seq.run]
+      rw [h1]; exact ih s hst
+  obtain ⟨b, outs, hr, _, ha, _, hst, _⟩ := history_refines (staCreate d) (Or.inr hsta.1) ops
+    (by rw [hsta.2]; exact hc ops _ rfl) (by rw [hsta.2]; exact hs)
+  refine ⟨b, outs, hr, ?_, by rw [hst]; rfl⟩
+  rw [ha, hsta.2]; exact hbytes ops _ rfl
+
+/-! ### The reference means what the property says (white-space operations) -/
+
+/-- After shrinking, a white-space byte is a space and is never followed by white space:
+    every maximal run became exactly one space (this is what failed for runs of two). -/
+theorem shrink_collapses_runs (xs : Bytes) :
+    ∀ i, (hi : i < (shrink xs).length) → ws (shrink xs)[i] = true →
+      (shrink xs)[i] = 0x20 ∧ (∀ (hj : i + 1 < (shrink xs).length), ws (shrink xs)[i + 1] = false) := by
+  have key : ∀ (xs : Bytes) (r : Bool), ∀ i, (hi : i < (shrinkAux r xs).length) → ws (shrinkAux r xs)[i] = true →
+      (shrinkAux r xs)[i] = 0x20 ∧ (∀ (hj : i + 1 < (shrinkAux r xs).length), ws (shrinkAux r xs)[i + 1] = false) ∧
+      (r = true → i = 0 → False) := by
+    intro xs
+    induction xs with
+    | nil => intro r i hi; simp [shrinkAux] at hi
+    | cons x xs ih =>
+      intro r i hi hw
+      by_cases hx : ws x = true
+      · cases r with
+        | true =>
+          simp only [shrinkAux, hx, if_true] at hi hw ⊢
+          simpa using ih true i hi hw
+        | false =>
+          simp only [shrinkAux, hx, if_true, Bool.false_eq_true, if_false] at hi hw ⊢
+          cases i with
+          | zero =>
+            refine ⟨rfl, ?_, by simp⟩
+            intro hj
+            simp only [List.length_cons, Nat.zero_add, List.getElem_cons_succ] at hj ⊢
+            cases hh : ws (shrinkAux true xs)[0] with
+            | false => rfl
+            | true => exact ((ih true 0 (by omega) hh).2.2 rfl rfl).elim
+          | succ i =>
+            simp only [List.length_cons, List.getElem_cons_succ] at hi hw ⊢
+            have := ih true i (by omega) hw
+            exact ⟨this.1, fun hj => this.2.1 (by omega), by simp⟩
+      · have hx' : ws x = false := by simpa using hx
+        simp only [shrinkAux, hx', Bool.false_eq_true, if_false] at hi hw ⊢
+        cases i with
+        | zero => simp [hx'] at hw
+        | succ i =>
+          simp only [List.length_cons, List.getElem_cons_succ] at hi hw ⊢
+          have := ih false i (by omega) hw
+          exact ⟨this.1, fun hj => this.2.1 (by omega), by simp⟩
+  intro i hi hw
+  have := key xs false i hi hw
+  exact ⟨this.1, this.2.1⟩
+
+/-! ### Lists -/
+
+/-- A list's length and item order equal those of a plain sequence under any finite history of
+    append, insert, get, extract-first (and len); no NULL or freed cell is ever dereferenced; the
+    head/tail/len fields stay coherent (`Denotes`). -/
+theorem list_history_refines (ops : List LOp) :
+    ∃ l outs, LList.create.run ops = .ok (l, outs) ∧ LList.Denotes l (lrun [] ops).1 ∧
+      outs = (lrun [] ops).2 ∧ l.len = (lrun [] ops).1.length := by
+  obtain ⟨l, outs, hr, hd, ho⟩ := LList.run_refines ops LList.create [] LList.denotes_create
+  exact ⟨l, outs, hr, hd, ho, LList.denotes_len hd⟩
+
+/-- …and destroying the list afterwards frees every cell exactly once. -/
+theorem list_destroy_ok (ops : List LOp) :
+    ∃ l outs l', LList.create.run ops = .ok (l, outs) ∧ l.destroy = .ok l' := by
+  obtain ⟨l, outs, hr, hd, _⟩ := list_history_refines ops
+  obtain ⟨l', hl'⟩ := LList.destroy_ok hd
+  exact ⟨l, outs, l', hr, hl'⟩
+
+/-! ### Non-vacuity: the hypotheses are satisfiable and the model computes -/
+
+example : Contract codec ⟨b!"a  b", false⟩ [.shrink, .delete 1 2, .insert (.dyn b!"xy") 1, .hexToBin] := by
+  simp [Contract, excluded, Spec.Seq.step, mutate, shrink, shrinkAux, ws]
+
+example : Sized ⟨b!"a  b", false⟩ [.shrink, .strip] := by
+  simp [Sized, Spec.Seq.step, mutate, shrink, shrinkAux, ws]
+
+/-- The pinned tree left "a  b" unchanged; the fixed code (and the model) collapse the run. -/
+example : (match Buf.create (some b!"a  b") 4 with
+    | .ok b => (match b.run [.shrink] with | .ok (b', _) => some b'.abs | .error _ => none)
+    | .error _ => none) = some b!"a b" := by decide +kernel
+
+/-- `hex_to_binary` on the empty buffer (NULL data) is a no-op, not a NULL store. -/
+example : (match Buf.nullBuf.hexToBinary with | .ok r => some r | .error _ => none)
+    = some (Buf.nullBuf, true) := by decide +kernel
+
+/-- The excluded delete is a fault in the model. -/
+example : ∃ w, (Buf.canon b!"abc" []).delete 1 5 = .error (.ub w) :=
+  excluded_delete_is_ub b!"abc" [] 1 5 (by decide) (by decide) (by decide)
+
+example : (match LList.create.run [.append 7, .insert 8 0, .insert 9 5, .extractFirst, .get 1] with
+    | .ok (_, outs) => some outs | .error _ => none)
+    = some [.bool true, .bool true, .bool true, .item (some 8), .item (some 9)] := by decide +kernel
+
 end Wbxml.Props.C19
